@@ -205,7 +205,7 @@ fn run(c: &Case, oracle: &mut Vec<String>) -> String {
         "time_dec" => {
             let b = hx(0);
             let ar = one_entry_archive(&[(b"mTIM", &b)]);
-            show_res(guard(|| read_one(&ar)), |e| format!("{}", e.metadata().modified().unwrap().as_secs()))
+            show_res(guard(|| read_one(&ar)), |e| e.metadata().modified().map(|d| format!("{}", d.as_secs())).unwrap_or_else(|| "none (an mTIM chunk was read, no modification time is reported)".into()))
         }
         "time_enc" => {
             let secs = n(0);
